@@ -722,6 +722,44 @@ def check_graph(run, rng, spec: Dict[str, Any], engine: str, case: Dict[str, Any
         raise AssertionError(f'harness: built graph has {len(exp)} reachable elements, spec has {len(spec["elems"])}')
     for n_cfg, cfg in enumerate(graph_configs(rng, feat, all_modes)):
         parsed = roundtrip(run, root, exp, feat, cfg, case, engine)
+        if parsed is not None and n_cfg % 3 == 1:
+            # history: the graph read from the bytes is edited in place and dropped; the same bytes are then read again
+            try:
+                b_same = io.BytesIO()
+                fmt_name, fmt_ver = cfg.get('fmt', ['dmx', 1])
+                if cfg['enc'] == 'binary':
+                    root.export_binary(b_same, cfg['version'], fmt_name, fmt_ver, cfg['unicode'])
+                else:
+                    root.export_kv2(b_same, fmt_name, fmt_ver, flat=cfg['flat'], unicode=cfg['unicode'], cull_uuid=cfg['cull'])
+                from srctools.dmx import Element as _El3
+                first_g = _El3.parse(io.BytesIO(b_same.getvalue()), unicode=cfg['unicode'] == 'silent')[0]
+                seen_e = {id(first_g)}
+                todo_e = [first_g]
+                while todo_e:
+                    el = todo_e.pop()
+                    for attr in list(el.values()):
+                        if attr.type.name == 'ELEMENT':
+                            for sub in attr.iter_elem():
+                                if not sub.is_null and not sub.is_stub and id(sub) not in seen_e:
+                                    seen_e.add(id(sub))
+                                    todo_e.append(sub)
+                        elif attr.is_array:
+                            if len(attr):
+                                del attr[0]
+                        elif attr.type.name == 'INTEGER':
+                            attr.val_int = attr.val_int + 1
+                        elif attr.type.name == 'STRING' and attr.name.casefold() != 'name':
+                            attr.val_str = attr.val_str + '~'
+                    el['edited_by_reader_of_first_copy'] = 1
+                second_g = snapshot(_El3.parse(io.BytesIO(b_same.getvalue()), unicode=cfg['unicode'] == 'silent')[0])
+                d_s = diff_nodes(exp, second_g, exact=cfg['enc'] == 'binary', uuids=cfg['enc'] == 'binary' or not cfg['cull'])
+                run.count('bytes_parsed_again_after_the_first_graph_was_edited')
+                if d_s is not None:
+                    run.violation(f'{cfg["enc"]}: the same bytes parsed again, after the first parsed graph was edited, differ at {d_s["path"]} ({d_s["field"]})',
+                                  witness=d_s, key='parse-depends-on-earlier-parse', engine=engine, case=dict(case, cfg=cfg))
+            except Exception as exc:
+                run.violation(f'{cfg["enc"]}: parsing the same bytes a second time raised {type(exc).__name__}: {exc}', key='parse-depends-on-earlier-parse',
+                              engine=engine, case=dict(case, cfg=cfg))
         if parsed is not None and n_cfg % 3 == 0:
             # the graph the READER built is handed to the writer again: it describes the same graph (second generation),
             # so parsing that gives the same snapshot once more
@@ -1100,7 +1138,7 @@ def main(run, shard=(0, 1)) -> None:
         name_attr_case(run)
     probe.report(run)
     probe.check_reached(run)
-    run.require('default_argument_exports', 'legacy_version_0_roundtrips', 'string_table_overflow_refused', 'second_generation_roundtrips', 'binary_parses', 'kv2_parses', 'real_file_roundtrips', 'repeated_exports', 'graphs_re_exported_after_edits', 'independent_decodes_agree', 'to_kv1_calls', 'to_kv1_after_wire',
+    run.require('default_argument_exports', 'legacy_version_0_roundtrips', 'string_table_overflow_refused', 'second_generation_roundtrips', 'bytes_parsed_again_after_the_first_graph_was_edited', 'binary_parses', 'kv2_parses', 'real_file_roundtrips', 'repeated_exports', 'graphs_re_exported_after_edits', 'independent_decodes_agree', 'to_kv1_calls', 'to_kv1_after_wire',
                 'graphs_with_sharing', 'graphs_with_cycle', 'graphs_with_self_loop', 'graphs_with_nameless_elements', 'stub_occurrences', 'null_in_array_occurrences',
                 'empty_array_occurrences', 'scalar_matrix_occurrences', 'name_needs_escape_occurrences',
                 'unicode_string_array_occurrences', 'unicode_type_occurrences', 'ascii_mode_refused_non_ascii',
